@@ -130,14 +130,14 @@ def check_k(mode):
       out.append(('K:%s:kill-raised' % mode, 'kill() itself raised; events %r' % (ev,), rep))
     if 'exc-in-main' in ev:
       out.append(('K:%s:exc-in-other-thread' % mode, 'ThreadTerminationError surfaced in the main thread; events %r' % (ev,), rep))
-    if 'finished-start' not in ev:
-      out.append(('K:%s:no-finish-handler' % mode, 'the finish handler never ran; events %r' % (ev,), rep))
     if kr is not None and sc is not None and kr < sc:
       # kill returned before start(): the body must never run
       if bs is not None:
         out.append(('K:%s:body-ran-after-kill-before-start' % mode, 'kill() returned before start(), yet the body ran; events %r' % (ev,), rep))
-    elif kc is not None and be is not None and kc > be:
-      # kill requested after the body returned: no effect
+      if 'finished-end' not in ev:
+        out.append(('K:%s:no-finish-handler' % mode, 'killed before start: the finish handler did not complete; events %r' % (ev,), rep))
+    elif kc is not None and min([i for i in (idx('finished-start'), idx('handler-exc-start')) if i is not None] or [10**9]) < kc:
+      # kill requested after the body returned (its exception / finish handlers run, or it finished): no effect
       if exc_events:
         out.append(('K:%s:kill-after-body-had-effect' % mode,
                     'kill() was called after the body returned but ThreadTerminationError was raised (%r); events %r' % (exc_events, ev), rep))
@@ -213,6 +213,24 @@ def scenario_t(position, duration, after):
   return fn
 
 
+_FIN = {}
+
+
+def finished_lineno():
+  """Line of `self._thread_finished()` in KillableThread.run, found by text anchor."""
+  if 'n' not in _FIN:
+    import inspect  # pylint: disable=g-import-not-at-top
+    threads = thr()
+    src, start = inspect.getsourcelines(threads.KillableThread.run)
+    for i, line in enumerate(src):
+      if 'self._thread_finished()' in line:
+        _FIN['n'] = start + i
+        break
+    else:
+      _FIN['n'] = -1
+  return _FIN['n']
+
+
 def execute_t(cfg, choices):
   htf.init()
   from openhtf.core import phase_executor  # pylint: disable=g-import-not-at-top
@@ -221,8 +239,15 @@ def execute_t(cfg, choices):
   sched, value = explore.run_under_scheduler(
       scenario_t(position, duration, after), choices,
       focus_targets=[phase_executor.PhaseExecutorThread.join_or_die, threads.KillableThread.run],
-      focus_files=('openhtf/util/threads.py', 'openhtf/core/phase_executor.py'), max_steps=40000, horizon=1000000.0 + 5000)
+      focus_files=('openhtf/util/threads.py', 'openhtf/core/phase_executor.py'), max_steps=40000, horizon=1000000.0 + 5000,
+      line_watch=('run', 'join_or_die'))
+  result_lines = [e for e in sched.events if e[0] == 'line' and e[2] == 'run' and 'timed' in e[1]]
+  jod = [e for e in sched.events if e[0] == 'line' and e[2] == 'join_or_die']
+  first_line = min([e[3] for e in jod] or [0])
+  join_calls = [e[4] for e in jod if e[3] == first_line]     # virtual time at which each join_or_die call began
   result = {'value': value if isinstance(value, dict) else repr(value), 'failure': repr(sched.failure) if sched.failure else None}
+  result['timed_run_lines'] = [(e[3], e[4]) for e in result_lines]
+  result['join_calls'] = join_calls
   result['timer_deviations'] = sum(1 for p in sched.points if p['kinds'][p['choice']] == 'timer' and 'run' in p['kinds'])
   if isinstance(value, dict):
     result['outcome_key'] = (value['outcome'], tuple((p[0], p[1], p[2]) for p in value['phases']))
@@ -251,11 +276,18 @@ def check_t(cfg):
       out.append(('T:%s:not-run' % tag, 'timed phase did not run: %r' % (v,), rep))
       return out
     trec = timed[0]
-    if ended is not None and ended - t0 < T - 1e-6:
+    # the moment the phase thread is back in KillableThread.run() after _thread_proc() returned (result stored)
+    fin = finished_lineno()
+    t_ret = min([t for ln, t in ex.result.get('timed_run_lines', []) if ln == fin] or [None], key=lambda x: (x is None, x))
+    names = [p[0] for p in v['phases']]
+    jc = ex.result.get('join_calls', [])
+    k = names.index('timed')
+    t_wait = jc[k] if k < len(jc) else t0       # when the executor started waiting = when its deadline was fixed
+    if ended is not None and t_ret is not None and t_ret - t_wait < T - 1e-6:
       # returned before its deadline: never reported as timed out, keeps its own result
       if trec[2] == 'TIMEOUT' or v['outcome'] == 'TIMEOUT':
-        out.append(('T:%s:false-timeout' % tag, 'body returned after %.3fs (< timeout %.1fs) but was reported TIMEOUT: %r'
-                    % (ended - t0, T, v['phases']), rep))
+        out.append(('T:%s:false-timeout' % tag, 'phase thread had its result %.3fs after the executor started waiting (< timeout %.1fs) '
+                    'but was reported TIMEOUT: %r' % (t_ret - t_wait, T, v['phases']), rep))
       exp = 'FAIL' if after == 'fail' else 'PASS'
       if trec[1] != exp:
         out.append(('T:%s:own-result-lost' % tag, 'body returned in time with result for outcome %s but record says %s' % (exp, trec[1]), rep))
@@ -307,7 +339,8 @@ def run(tier):
                  deviation_bound=kb, distinct_outcomes=len(r['outcomes']), exhaustive=not r['capped'],
                  decision_points_default=r['default_points'], samples=r['samples'] or [{'choices': []}])
   tb = 2 if tier == 'quick' else 3
-  for cfg in t_configs(tier):
+  for ci, cfg in enumerate(t_configs(tier)):
+    tb = (2 if ci in (0, 1, 8) else 1) if tier == 'quick' else 3
     r = explore.explore('T:%r' % (cfg,), lambda ch, cfg=cfg: execute_t(cfg, ch), check_t(cfg), tb,
                         cap=60000 if tier == 'quick' else 400000)
     rep.merge_violations(r['violations'])
